@@ -12,8 +12,11 @@ import (
 	_ "github.com/netsampler/goflow2/v2/format/binary"
 	_ "github.com/netsampler/goflow2/v2/format/json"
 	_ "github.com/netsampler/goflow2/v2/format/text"
+	"github.com/netsampler/goflow2/v2/metrics"
+	"github.com/netsampler/goflow2/v2/producer"
 	protoproducer "github.com/netsampler/goflow2/v2/producer/proto"
 	"github.com/netsampler/goflow2/v2/utils"
+	"github.com/netsampler/goflow2/v2/utils/debug"
 	"google.golang.org/protobuf/encoding/protowire"
 	"gopkg.in/yaml.v3"
 )
@@ -149,8 +152,43 @@ func addrOf(b []byte) netip.Addr {
 }
 
 type pipeEnv struct {
-	rec  *recTransport
-	pipe utils.FlowPipe
+	rec    *recTransport
+	pipe   utils.FlowPipe
+	decode utils.DecoderFunc // what the receiver calls: the pipe's DecodeFlow, wrapped as cmd/goflow2 wraps it for "pipeasm"
+}
+
+// newPipeAssembled builds the pipe the way cmd/goflow2/main.go does: the producer behind the panic and Prometheus
+// wrappers, the Prometheus template system as the pipe's templater, DecodeFlow behind the panic and Prometheus wrappers
+func newPipeAssembled(kind, cfgName, formatName string) (*pipeEnv, error) {
+	cfg, err := compileCfg(cfgName)
+	if err != nil {
+		return nil, err
+	}
+	var prod producer.ProducerInterface
+	prod, err = protoproducer.CreateProtoProducer(cfg, protoproducer.CreateSamplingSystem)
+	if err != nil {
+		return nil, err
+	}
+	prod = debug.WrapPanicProducer(prod)
+	prod = metrics.WrapPromProducer(prod)
+	f, err := format.FindFormat(formatName)
+	if err != nil {
+		return nil, err
+	}
+	rec := &recTransport{}
+	pc := &utils.PipeConfig{Format: f, Transport: rec, Producer: prod, NetFlowTemplater: metrics.NewDefaultPromTemplateSystem}
+	var p utils.FlowPipe
+	switch kind {
+	case "netflow":
+		p = utils.NewNetFlowPipe(pc)
+	case "sflow":
+		p = utils.NewSFlowPipe(pc)
+	default:
+		p = utils.NewFlowPipe(pc)
+	}
+	d := debug.PanicDecoderWrapper(p.DecodeFlow)
+	d = metrics.PromDecoderWrapper(d, kind)
+	return &pipeEnv{rec, p, d}, nil
 }
 
 func newPipe(kind, cfgName, formatName string) (*pipeEnv, error) {
@@ -177,7 +215,7 @@ func newPipe(kind, cfgName, formatName string) (*pipeEnv, error) {
 	default:
 		p = utils.NewFlowPipe(pc)
 	}
-	return &pipeEnv{rec, p}, nil
+	return &pipeEnv{rec, p, p.DecodeFlow}, nil
 }
 
 // one DecodeFlow call; prints outcome, number of sends, the messages
@@ -190,7 +228,7 @@ func (e *pipeEnv) step(t *toks, addr []byte, port uint64, tr uint64, payload []b
 		Payload:  payload,
 		Received: time.Unix(0, int64(tr)).UTC(),
 	}
-	err := e.pipe.DecodeFlow(msg)
+	err := e.decode(msg)
 	switch {
 	case err == nil:
 		t.S("ok")
@@ -209,6 +247,19 @@ func init() {
 	// pipe <kind> <cfg> (=addr #port #tr =payload)*
 	handlers["pipe"] = func(a []string) string {
 		env, err := newPipe(a[0], a[1], "bin")
+		if err != nil {
+			return "cfgerr"
+		}
+		var t toks
+		for i := 2; i+3 < len(a); i += 4 {
+			env.step(&t, unhex(a[i]), unnum(a[i+1]), unnum(a[i+2]), unhex(a[i+3]))
+			t.S("|")
+		}
+		return t.String()
+	}
+	// pipeasm <kind> <cfg> (=addr #port #tr =payload)* : the same through the pipe as cmd/goflow2 assembles it
+	handlers["pipeasm"] = func(a []string) string {
+		env, err := newPipeAssembled(a[0], a[1], "bin")
 		if err != nil {
 			return "cfgerr"
 		}
